@@ -1,5 +1,11 @@
 package confutil
 
+import (
+	"io"
+	"os"
+	"strings"
+)
+
 // ${property:file#key} placeholders: any token text, with or without '#', never panics.
 func HarnessC13PropertyToken() {
 	n := int(vConcretize(vNondetInt("len", 0, 4)))
@@ -16,6 +22,75 @@ func HarnessC13PropertyToken() {
 	}
 	if !hasHash {
 		vCheck("M7.placeholder.without.key.is.error", err != nil)
+	}
+	vReach("end")
+}
+
+// ---- the properties file itself is hostile: any short lines (with or without '=', empty lines,
+// empty keys) and any key: the resolver returns the value of the first line `key=value` or an
+// error, never panics. The file system is the environment: symbolically os.Open and the file's
+// Read/Close are the stubs below (content chosen by the harness); natively a real temporary file.
+
+var c13file struct {
+	content string
+	off     int
+}
+
+func vStub_os_Open(name string) (*os.File, error) {
+	c13file.off = 0
+	return &os.File{}, nil
+}
+func vStub___os_File__Read(f *os.File, b []byte) (int, error) {
+	if c13file.off >= len(c13file.content) {
+		return 0, io.EOF
+	}
+	n := copy(b, c13file.content[c13file.off:])
+	c13file.off += n
+	return n, nil
+}
+func vStub___os_File__Close(f *os.File) error { return nil }
+
+func HarnessC13PropertyFile() {
+	alpha := func(name string, n int) string {
+		s := vNondetString(name, n)
+		for i := 0; i < n; i++ {
+			vAssume(s[i] == 'k' || s[i] == '=' || s[i] == 'v')
+		}
+		return s
+	}
+	var lines []string
+	nl := int(vConcretize(vNondetInt("lines", 0, 2)))
+	for i := 0; i < nl; i++ {
+		lines = append(lines, alpha("line", int(vConcretize(vNondetInt("linelen", 0, 3)))))
+	}
+	key := alpha("key", int(vConcretize(vNondetInt("keylen", 0, 2))))
+	c13file.content = strings.Join(lines, "\n")
+	if nl > 0 && vNondetBool("finalNewline") {
+		c13file.content += "\n"
+	}
+	name := "props"
+	if vNative() {
+		f, err := os.CreateTemp("", "verifprops")
+		if err != nil {
+			panic(err)
+		}
+		f.WriteString(c13file.content)
+		f.Close()
+		name = f.Name()
+		defer os.Remove(name)
+	}
+	val, err := propertyTokenResolver(name + "#" + key)
+	// reference: first line containing '=' whose text before the first '=' is the key
+	want, found := "", false
+	for _, l := range lines {
+		if i := strings.IndexByte(l, '='); i >= 0 && l[:i] == key && !found {
+			want, found = l[i+1:], true
+		}
+	}
+	if found {
+		vCheck("M7.property.found", err == nil && val == want)
+	} else {
+		vCheck("M7.unknown.property.is.error", err != nil)
 	}
 	vReach("end")
 }
